@@ -7,7 +7,6 @@
    ASSUMPTIONS).  All literals of the loader come from gen/BzlConstsC19.v, regenerated from
    /repo on every run (T1). Failures of the loader are explicit error values:
      FailMinLen / FailHash / FailUrl   the three fail(...) calls of parse_constraint
-     ErrStartswithArgs                 url.startswith( *wheel_dirs) with >= 2 wheel dirs
      ErrIndex                          an out-of-range list index. *)
 From Coq Require Import List Bool String Ascii Arith.
 From RC Require Import lib.PyStr lib.Name gen.BzlConstsC19.
@@ -100,7 +99,7 @@ Definition sanitize (s : string) : string :=
 
 (* ---------------------------------------------------------------- the loader *)
 
-Inductive err := FailMinLen | FailHash | FailUrl | ErrStartswithArgs | ErrIndex.
+Inductive err := FailMinLen | FailHash | FailUrl | ErrIndex.
 Inductive res (A : Type) := Ok (a : A) | Err (e : err).
 Arguments Ok {A}. Arguments Err {A}.
 
@@ -131,14 +130,9 @@ Definition via_of_entry (e : string) : list string :=
   else if existsb (fun m => containsb m pkg) c19_path_marks then []
   else [sanitize pkg].
 
-(* url.startswith( *wheel_dirs): one directory = a prefix test; two or more = the second
-   positional argument (start) is a string -> error in Starlark and in Python *)
-Definition startswith_star (url : string) (wheel_dirs : list string) : res bool :=
-  match wheel_dirs with
-  | [] => Ok false            (* not reached: guarded by `wheel_dirs and` *)
-  | [d] => Ok (prefixb d url)
-  | _ => Err ErrStartswithArgs
-  end.
+(* url.startswith(tuple(wheel_dirs)): the url starts with one of the wheel directories *)
+Definition startswith_tuple (url : string) (wheel_dirs : list string) : bool :=
+  existsb (fun d => prefixb d url) wheel_dirs.
 
 Definition relative_parent_label (url : string) (lockfile : label) : res string :=
   let url_parents := count_str c19_up_count url in
@@ -173,17 +167,14 @@ Definition parse_constraint (data : list string) (lockfile : label) (wheel_dirs 
         match wheel_dirs with
         | [] => Err FailUrl
         | _ =>
-          match startswith_star url wheel_dirs with
-          | Err e => Err e
-          | Ok false => Err FailUrl
-          | Ok true =>
-              if startswith_any url c19_up_prefixes then
-                match relative_parent_label url lockfile with
-                | Ok w => Ok (mk None (Some w))
-                | Err e => Err e
-                end
-              else Ok (mk None (Some (label_str (same_package_label lockfile url))))
-          end
+          if startswith_tuple url wheel_dirs then
+            if startswith_any url c19_up_prefixes then
+              match relative_parent_label url lockfile with
+              | Ok w => Ok (mk None (Some w))
+              | Err e => Err e
+              end
+            else Ok (mk None (Some (label_str (same_package_label lockfile url))))
+          else Err FailUrl
         end
     end
   | _, _, _ => Err ErrIndex
@@ -285,39 +276,6 @@ Definition parse_lockfile (content : string) (annotations : list (string * strin
 
 (* ---------------------------------------------------------------- the writer side *)
 
-(* urllib.parse.urljoin(base, url) for scheme-less, query-less relative paths (what a
-   find-links candidate's link (dir, dir/file) is joined with) *)
-Definition drop_last {A} (l : list A) : list A := removelast l.
-Definition squeeze_middle (segs : list string) : list string :=
-  match segs with
-  | [] => []
-  | [x] => [x]
-  | x :: rest =>
-      match last_opt rest with
-      | Some z => (x :: filter (fun s => negb (is_empty s)) (removelast rest) ++ [z])%list
-      | None => [x]
-      end
-  end.
-Definition resolve_dots (segs : list string) : list string :=
-  fold_left (fun acc seg =>
-               if String.eqb seg ".." then removelast acc
-               else if String.eqb seg "." then acc
-               else (acc ++ [seg])%list) segs [].
-Definition urljoin_rel (base url : string) : string :=
-  if is_empty base then url else if is_empty url then base else
-  let base_parts := split_char "/"%char base in
-  let base_parts := match last_opt base_parts with
-                    | Some EmptyString => base_parts
-                    | _ => removelast base_parts end in
-  let segments := if prefixb "/" url then split_char "/"%char url
-                  else squeeze_middle (base_parts ++ split_char "/"%char url)%list in
-  let resolved := resolve_dots segments in
-  let resolved := match last_opt segments with
-                  | Some s => if String.eqb s "." || String.eqb s ".." then (resolved ++ [EmptyString])%list else resolved
-                  | None => resolved end in
-  let p := join "/" resolved in
-  if is_empty p then "/" else p.
-
 (* one requirer as build_explanation renders it: node.metadata.name ++ tail, the tail being
    "" or "[extras]" and/or " (specifier [extras])" *)
 Record requirer := mkRequirer { rq_name : string; rq_tail : string }.
@@ -345,7 +303,7 @@ Record view := mkView {
 Definition link_text (l : link) : string :=
   match l with
   | LUrl u => u
-  | LWheel d f => urljoin_rel d (d ++ "/" ++ f)
+  | LWheel d f => d ++ "/" ++ f      (* scheme-less base: the writer emits link[1] = dir/file *)
   end.
 
 Definition via_single_line (r : requirer) : string := "    # via " ++ rq_text r.
@@ -404,6 +362,18 @@ Definition pin_key (p : pin) : string := sanitize (p_name p).
 Definition dep_keys (v : view) (p : pin) : list string :=
   flat_map (fun q => map (fun _ => pin_key q) (filter (String.eqb (pin_key p)) (via_keys q))) (v_pins v).
 
+(* the label of the wheel file dir/file of a find-links directory given relative to the lock
+   file's package: below the package it is <repo>//<pkg>:dir/file; for a directory that
+   points upwards ("../wheels") the loader's rule is kept as the specification: drop one
+   package segment per "../" and name the file by its last two path segments (see
+   C19_parent_dir_label for what that is on "../"^k name, and the known finding for deeper
+   upward directories). *)
+Definition wheel_label (lockfile : label) (d f : string) : option string :=
+  let path := d ++ "/" ++ f in
+  if startswith_any path [".."; "./../"] then
+    match relative_parent_label path lockfile with Ok w => Some w | Err _ => None end
+  else Some (l_repo lockfile ++ "//" ++ l_pkg lockfile ++ ":" ++ path).
+
 Definition expected_entry (lockfile : label) (constraint : option string) (v : view) (p : pin) : entry :=
   mkEntry None constraint
           (sort_strs (dep_keys v p))
@@ -413,7 +383,7 @@ Definition expected_entry (lockfile : label) (constraint : option string) (v : v
           (p_version p)
           (sort_strs (via_keys p))
           (match p_link p with
-           | Some (LWheel d f) => Some (l_repo lockfile ++ "//" ++ l_pkg lockfile ++ ":" ++ d ++ "/" ++ f)
+           | Some (LWheel d f) => wheel_label lockfile d f
            | _ => None end).
 
 Definition lock_view (lockfile : label) (constraint : option string) (v : view) : dict :=
@@ -501,20 +471,3 @@ Definition wf_view (v : view) : bool :=
   && forallb wf_fl_dir (v_find_links v)
   && forallb (wf_pin (v_find_links v)) (v_pins v)
   && nodup_b (map (fun p => norm (p_name p)) (v_pins v)).
-
-Definition is_wheel_pin (p : pin) : bool :=
-  match p_link p with Some (LWheel _ _) => true | _ => false end.
-Definition simple_dir (d : string) : bool :=
-  all_chars fname_char d && negb (String.eqb d ".") && negb (prefixb ".." d).
-(* the guard of the partial theorem: every wheel pin comes from the single find-links
-   directory, and the link the writer emits for it (urljoin of (dir, dir/file)) is that very
-   path dir/file and does not point upwards.  (`simple_dir d` is sufficient: see the proofs.) *)
-Definition wheel_ok (fls : list string) (p : pin) : bool :=
-  match p_link p with
-  | Some (LWheel d f) =>
-      match fls with [d'] => String.eqb d d' | _ => false end
-      && String.eqb (urljoin_rel d (wheel_path d f)) (wheel_path d f)
-      && negb (startswith_any (wheel_path d f) c19_up_prefixes)
-  | _ => true
-  end.
-Definition fl_guard (v : view) : bool := forallb (wheel_ok (v_find_links v)) (v_pins v).
